@@ -114,7 +114,7 @@ The file is `known_findings.json`; nothing is added to it at run time.
 
 SEEDS_INTRO = """Each change was written by a fresh sub-agent that saw only the property text and its own scratch worktree, confirmed by
 `tools/confirm_seed.sh` (demonstration passes on the pristine tree, fails with the patch, no new failure in the pinned suite) and stored under
-`seeded/<id>/`. Seven rounds, 273 stored changes. `tools/psweep.sh` applies every stored change to a scratch copy of /repo (several in parallel; `tools/seedsweep.sh`
+`seeded/<id>/`. Eight rounds, 313 stored changes. `tools/psweep.sh` applies every stored change to a scratch copy of /repo (several in parallel; `tools/seedsweep.sh`
 does the same on /repo's working tree, one at a time), runs the owning check and removes the copy; at the time of writing every stored change is
 reported as VIOLATION by the quick tier of its check, with a failing input replayed on the real code. Where a check first missed a change it was
 strengthened - the generator was the gap nearly every time, an oracle clause a few times; no oracle was loosened:
@@ -159,6 +159,17 @@ strengthened - the generator was the gap nearly every time, an oracle clause a f
   parameter, one Body switched from one content coding to the other; C15 the expires attribute of Set-Cookie fields; C16 credentials given as non-ASCII
   text, an element built from the parameters of another and then changed; C17 the list route `Headers.elements()` (found F66), verification against the whole
   received field, URI perturbations behind the path; C18 comparison of a version with its text in every spelling (leading zeros), methods handed over as text.
+
+* round 8 (ids -14 .. -16): C02 mixed-case escapes and `%2B` in targets, query pairs judged by the standard library's form reader; C03 (the token product is
+  complete in the quick tier: a change caught only under some seeds was the reason); C04 the method handed over as octets, a Date the sender of a request
+  set; C05 range requests when the application offered ranges / switched chunked on / set a coding / left a stale length itself; C07 trailer names with a percent
+  sign, unannounced trailer fields named like fields the message has; C08 invalid names that equal a valid one under caseless matching (a cache shared
+  between collections); C09 `Headers.append(name, value, **params)` and `formatparam(quote=True)`; C10 IDN hosts with letters that `casefold()` changes, 255
+  octets in IPv4 hosts; C12 queries with percent-encoded UTF-8 whose continuation octets are 0x80-0x9F (a clause that does not need the library's parser for
+  its expectation); C14 `compress()` of a body marked chunked; C15 the serialisation of a date built from a text (another weekday name, lower case, padded day);
+  C16 quotes and backslashes in credentials set through the properties; C18 several requests on one connection, `CONNECT` in mixed case with an ordinary
+  target; C19 the elements sent as several field lines with the name spelled differently, `get_element(name, which)` with a malformed weight elsewhere;
+  C20 a Response object that served another range request before, a stale Content-Length on it.
 
 Stored patches are rebased when a `fix:` commit touches the same lines (noted in their notes.txt). Six changes are kept under `seeded/rejected/` and are not
 counted: C04-2, C12-1-superseded and C11-11 became harmless through the repairs F50 / F60 / F64 (their demonstrations pass with the patch applied); C06-9 and C07-10
